@@ -3,11 +3,11 @@ package main
 // Store-discovery rules ST1, ST2 and determinism/purity/table rules DT2..DT5.
 
 import (
-	os_ "os"
 	"fmt"
 	"go/constant"
 	"go/token"
 	"go/types"
+	os_ "os"
 	"sort"
 	"strings"
 
@@ -88,6 +88,34 @@ func ruleST1(c *Ctx) {
 			}
 			cnt++
 			okAll := true
+			// a loop over the store's files (for _, p := range []string{eventsPath, lockPath}): each element on its own
+			var elems []ssa.Value
+			if u, isLd := strip(a0).(*ssa.UnOp); isLd && u.Op == token.MUL {
+				if ia, isIA := u.X.(*ssa.IndexAddr); isIA {
+					if es, ok := sliceElems(ia.X, 0, map[ssa.Value]bool{}); ok && len(es) > 0 {
+						elems = es
+					}
+				}
+			}
+			if isEns && len(elems) > 0 {
+				single := true
+				for _, el := range elems {
+					ecls := c.pathClass(el)
+					if !ecls[classLOG] {
+						continue // the lock file
+					}
+					if len(ecls) != 1 {
+						single = false
+					}
+					for _, e := range c.contexts(fn) {
+						if _, ok := c.chooserDir(el, e); !ok {
+							okAll = false
+						}
+					}
+				}
+				c.check(okAll && single, c.Name(fn), fmt.Sprintf("log-path-arg %s#%d", cal.Name(), cnt), c.Pos(call.Pos()), "every log path in the list is the chooser's result", "a log path in the list handed to "+cal.Name()+" is not the chooser's result: the file created here need not be the one every other command reads and writes")
+				continue
+			}
 			for _, e := range c.contexts(fn) {
 				if _, ok := c.chooserDir(a0, e); !ok {
 					okAll = false
@@ -181,9 +209,9 @@ func ruleST1(c *Ctx) {
 // ------------------------------------------------------------------ ST2
 
 type absState struct {
-	c    *Ctx
-	memo map[ssa.Value]int // 0 unknown/in progress, 1 abs, 2 not
-	bind []map[*ssa.Parameter]ssa.Value // parameters of the helpers being looked into, bound to the arguments of the call in hand
+	c      *Ctx
+	memo   map[ssa.Value]int              // 0 unknown/in progress, 1 abs, 2 not
+	bind   []map[*ssa.Parameter]ssa.Value // parameters of the helpers being looked into, bound to the arguments of the call in hand
 	inProg map[ssa.Value]bool
 }
 
